@@ -127,8 +127,18 @@ class Target:
         self.ctx_name = rec["scoped"]["ctx_name"]
         self.user = self.w.agent.users[rig.USER.encode()]
         self.engine = self.w.agent.engine_id
-        # a second engine that knows the same user (same passwords)
+        # a second engine that knows the same user (same passwords) ...
         self.engine_b = bytes.fromhex("80001f8804") + b"other-engine"
+        # ... and ANOTHER client of this process that really talks to it: whatever the
+        # process remembers about engine B must not make the victim client trust it
+        self.agent_b = agent_mod.Agent({k: FORGED for k in DB}, engine_id=self.engine_b, users=[self.user], clock=self.w.agent.clock)
+        from puresnmp import Client as _Client
+
+        self.client_b = _Client("192.0.2.77", self.w.creds, sender=rig.Seam(self.agent_b.handle))
+        try:
+            drive(self.client_b.get(OID(KEYS[0])))
+        except Exception:  # noqa: BLE001
+            pass
 
     def try_response(self, data):
         """Deliver ``data`` as the answer to a fresh run of the operation."""
